@@ -330,6 +330,9 @@ func main() {
 	sp(&ctor{name: "BIkeyedReq_S6", inStyle: true, deps: []dep{{target: "Context", form: "FKeyed", key: "k"}}, outs: simpleOut("S6"), hasErr: true})
 	sp(&ctor{name: "BIkeyedReq_S7", inStyle: true, deps: []dep{mkDep("", "FScope"), {target: "Scope", form: "FKeyed", key: "k"}}, outs: simpleOut("S7")})
 	sp(&ctor{name: "BIkeyedReq_S5", inStyle: true, deps: []dep{{target: "Provider", form: "FKeyed", key: "k"}, mkDep("", "FContext")}, outs: simpleOut("S5")})
+	// a grouped field followed by two fields that collide with each other (rejected inside the call, after a group member)
+	sp(&ctor{name: "OutGDup_K0K1K1", resultObj: true, outs: []out{{typ: "K0", group: "g"}, {typ: "K1"}, {typ: "K1"}}})
+	sp(&ctor{name: "OutGDup_K2K3", resultObj: true, outs: []out{{typ: "K2", group: "g"}, {typ: "K2", group: "h"}, {typ: "K3", key: "k"}, {typ: "K3", key: "k"}}})
 	writeTypes()
 	writeCtors()
 }
